@@ -5,7 +5,7 @@
 export GOFLAGS=-mod=mod GOPROXY=off GOSUMDB=off GOTOOLCHAIN=local
 tag=$1; pid=$2; demo=$3; shift 3
 mkdir -p /tmp/vs_$pid
-rsync -a --delete --exclude .git --exclude 'work/alt_*' --exclude 'work/gocache' --exclude 'work/C[0-9]*' --exclude 'work/logs' --exclude 'harness/gen/funcs*' --exclude 'coq/gen/Funcs*' --exclude 'coq/proofs/GenFuncs*' --exclude 'coq/lib/GoSem.v' --exclude 'harness/cmd/genfuncs_selftest' ${VS_BASE:-/tmp/vs_base}/ /tmp/vs_$pid/
+rsync -a --delete --exclude .git --exclude 'work/alt_*' --exclude 'work/gocache' --exclude 'work/C[0-9]*' --exclude 'work/logs' ${VS_BASE:-/tmp/vs_base}/ /tmp/vs_$pid/
 for i in "$@"; do
   VERIF_REGEN=1 VERIF_DIR=/tmp/vs_$pid SEED_TAG=$tag python3 /verif/tools/seed.py $pid $demo $i ${CHECKS:-$pid} > /tmp/seedres_${pid}_${tag}$i.json 2>&1
   python3 - <<PY
